@@ -70,6 +70,30 @@ pub struct TreeParams {
     pub partial16: u64,
     /// regrow some sub-trees to create a non-contiguous index layout
     pub holes: bool,
+    /// terminals are drawn from a palette of this many maps (0: every terminal is random); the palette holds
+    /// near-duplicates that differ only in the bias or in one coefficient
+    pub palette: usize,
+}
+
+fn make_palette(rng: &mut Rng, p: &TreeParams) -> Vec<AffFunc> {
+    let mut pal: Vec<AffFunc> = Vec::new();
+    for i in 0..p.palette {
+        if i == 0 || rng.chance(1, 3) {
+            pal.push(rand_aff(rng, p.out_dim, p.in_dim));
+        } else {
+            let mut f = rng.pick(&pal).clone();
+            if rng.chance(1, 2) {
+                let r = rng.below(p.out_dim);
+                f.bias[r] += 1.0;
+            } else {
+                let r = rng.below(p.out_dim);
+                let c = rng.below(p.in_dim);
+                f.mat[[r, c]] += 0.5;
+            }
+            pal.push(f);
+        }
+    }
+    pal
 }
 
 fn log2_floor(k: usize) -> usize {
@@ -80,52 +104,62 @@ fn log2_floor(k: usize) -> usize {
     r
 }
 
-fn grow<const K: usize>(rng: &mut Rng, t: &mut AffTree<K>, p: &TreeParams, parent: usize, label: usize, depth: usize) {
-    let terminal = depth >= p.max_depth || rng.chance(1 + depth as u64, 6);
+fn grow<const K: usize>(rng: &mut Rng, t: &mut AffTree<K>, p: &TreeParams, pal: &[AffFunc], parent: usize, label: usize, depth: usize) {
+    let terminal = depth >= p.max_depth || rng.chance(1 + depth as u64, if pal.is_empty() { 6 } else { 10 });
     if terminal {
-        let f = rand_aff(rng, p.out_dim, p.in_dim);
+        let f = if pal.is_empty() { rand_aff(rng, p.out_dim, p.in_dim) } else { rng.pick(pal).clone() };
         t.add_child_node(parent, label, f).unwrap();
     } else {
         let rows = 1 + rng.below(log2_floor(K));
         let hint = t.tree.node_value(parent).unwrap().aff.clone();
         let f = rand_pred(rng, rows, p.in_dim, Some(&hint));
         let idx = t.add_child_node(parent, label, f).unwrap();
-        grow_children(rng, t, p, idx, rows, depth);
+        grow_children(rng, t, p, pal, idx, rows, depth);
     }
 }
 
-fn grow_children<const K: usize>(rng: &mut Rng, t: &mut AffTree<K>, p: &TreeParams, idx: usize, rows: usize, depth: usize) {
+fn grow_children<const K: usize>(rng: &mut Rng, t: &mut AffTree<K>, p: &TreeParams, pal: &[AffFunc], idx: usize, rows: usize, depth: usize) {
     let n_labels = 1usize << rows;
     let forced = rng.below(n_labels);
     for l in 0..n_labels {
         if l != forced && rng.chance(p.partial16, 16) {
             continue;
         }
-        grow(rng, t, p, idx, l, depth + 1);
+        grow(rng, t, p, pal, idx, l, depth + 1);
     }
 }
 
 /// random piece-wise linear tree with `K` slots per node
 pub fn rand_tree<const K: usize>(rng: &mut Rng, p: &TreeParams) -> AffTree<K> {
+    let pal = make_palette(rng, p);
+    let pal = &pal[..];
     let leaf_root = p.max_depth == 0 || rng.chance(1, 8);
     if leaf_root {
         return AffTree::<K>::from_aff(rand_aff(rng, p.out_dim, p.in_dim));
     }
     let rows = 1 + rng.below(log2_floor(K));
     let mut t = AffTree::<K>::from_aff(rand_pred(rng, rows, p.in_dim, None));
-    grow_children(rng, &mut t, p, 0, rows, 0);
+    grow_children(rng, &mut t, p, pal, 0, rows, 0);
     if p.holes {
-        for _ in 0..rng.below(3) {
+        for _ in 0..(if p.palette > 0 { 1 + rng.below(4) } else { rng.below(3) }) {
             // remove a random non-root sub-tree and regrow it: the slab reuses indices LIFO
             let cands: Vec<usize> = t.tree.node_indices().filter(|i| *i != t.tree.get_root_idx()).collect();
             if cands.is_empty() {
                 break;
             }
-            let victim = *rng.pick(&cands);
+            let mut victim = *rng.pick(&cands);
+            if p.palette > 0 && rng.chance(2, 3) {
+                // a child of the root: the re-grown sub-tree is deep, and the slab hands out the freed indices
+                // in an order that puts child decisions below their parents' indices
+                let kids: Vec<usize> = t.tree.children(t.tree.get_root_idx()).map(|e| e.target_idx).collect();
+                if !kids.is_empty() {
+                    victim = *rng.pick(&kids);
+                }
+            }
             let edge = t.tree.parent(victim).unwrap().edge();
             let depth = t.tree.path_to_node(victim).unwrap().len();
             t.tree.remove_child(edge.source_idx, edge.label);
-            grow(rng, &mut t, p, edge.source_idx, edge.label, depth);
+            grow(rng, &mut t, p, pal, edge.source_idx, edge.label, depth);
         }
     }
     t
